@@ -293,4 +293,10 @@ theorem setUnsafe_wrong (j : Fin n) (v : Var n τ) (y : τ j) (h : v.idx ≠ j) 
   rfl
 
 end Var
+
+theorem VarV.toOptional_some {n : Nat} {τ : Fin n → Type} (j : Fin n) (v : Var n τ) :
+    (VarV.toOptional j (some v) : K σ (Option (τ j))) = Var.toOptional j v := by
+  unfold VarV.toOptional Var.toOptional VarV.holdsType
+  by_cases h : Var.holdsType j v = true <;> simp [h]
+
 end Fcppt.C04
